@@ -125,7 +125,7 @@ func main() {
 	}
 	if *budget == 0 {
 		if *tier == "quick" {
-			*budget = 150
+			*budget = 210
 		} else {
 			*budget = 900
 		}
